@@ -184,6 +184,12 @@ def tiny_pairs(acc, SL, mesh, geo, rng, curve, wit0, exact, judge_entry, log):
         vs = [Vertex(t0, x0, -1), Vertex(t0, x1, -1), Vertex(t1, x1, -1), Vertex(t1, x0, -1)]
         return DummyElement(vs, gamma.pw_gamma[p])
 
+    # the recorded finding's own witness (closed-form rounding noise), re-observed on every run on the unit square
+    if curve == 'UnitSquare' and exact:
+        te = dummy(0.853271484375, 0.8533935546875, 3.03125, 3.0390625)
+        tr = dummy(0.853271484375, 0.8533935546875, 3.6875, 3.6953125)
+        judge_entry(float(SL.bilform(tr, te)), te, tr, 'bilform-synthetic', exact)
+        log.take()
     for _ in range(60):
         kt = rng.randint(4, 16)
         ht = 2.0**-kt
@@ -247,14 +253,26 @@ def sweep(acc, SL, mesh, geo, elems, rng, n_eval, curve, wit0, exact):
     L = geo.length
     T = max(e.time_interval[1] for e in elems)
     SL._init_elems(elems)
-    for _ in range(n_eval):
-        e = elems[rng.randrange(len(elems))]
+    witness = []
+    if curve == 'PiSquare' and not exact:
+        # the recorded evaluate_exact finding's own witness: a short element far from the evaluation point on the same side
+        from src.hierarchical_error_estimator import DummyElement
+        from src.mesh import Vertex
+        a, b, c, d = 0.5625, 0.625, 2.356194490192345, 3.141592653589793
+        we = DummyElement([Vertex(a, c, -1), Vertex(a, d, -1), Vertex(b, d, -1), Vertex(b, c, -1)], gamma.pw_gamma[0])
+        SL._init_elems([we])
+        witness = [(we, 0.59375, 0.0)]
+    for it in range(n_eval + len(witness)):
+        e = elems[rng.randrange(len(elems))] if it >= len(witness) else witness[it][0]
         t0, t1 = e.time_interval
         x0, x1 = e.space_interval
         times = [(t0, 't-at-start'), (t1, 't-at-end'), (float(np.nextafter(t0, -1)), 't-before-start'), (t0 - rng.random() * 0.3 - 1e-9, 't-before-start'),
                  (float(np.nextafter(t0, 9)), 't-after-start'), ((t0 + t1) / 2, 't-inside'), (t1 + rng.random() * (T - t1 + 0.1), 't-after-end'),
                  (float(np.nextafter(t1, 9)), 't-after-end')]
         pts = [x0, x1, (x0 + x1) / 2, min(L, x1 + 0.01 * e.h_x), max(0.0, x0 - 0.5 * e.h_x), rng.uniform(0, L), 0.0, L]
+        if it < len(witness):
+            times.append((witness[it][1], 't-inside'))
+            pts.append(witness[it][2])
         vals = []
         for t, tcls in times:
             for xh in pts:
